@@ -167,7 +167,7 @@ std::string run(const std::vector<std::string> & tok)
         ftp::client cl(mode, type, std::move(ctx), rfc);
         auto obs = std::make_shared<rec_observer>(0);
         cl.add_observer(obs);
-        const std::string host = v6 ? "::1" : "127.0.0.1";
+        const std::string default_host = v6 ? "::1" : "127.0.0.1";
         set_capture_raw(true);
 
         for (std::size_t k = 2; k < tok.size(); k++)
@@ -193,6 +193,9 @@ std::string run(const std::vector<std::string> & tok)
                 auto reply_ret = [](const ftp::reply & r) { return "ret:reply:" + std::to_string(r.get_code()) + ":" + hex(r.get_status_string()); };
                 if (n == "connect")
                 {
+                    // connect:<host|->:-[:<user>:<pass>]   host: another loopback address of this machine (e.g. 127.0.0.2)
+                    std::string h2;
+                    const std::string host = (a.size() > 1 && a[1] != "-" && unhex(a[1], h2)) ? h2 : default_host;
                     if (a.size() >= 5) { std::string u, p; if (!H(3, u) || !H(4, p)) return "bad-op"; ret = "ret:replies:" + render_replies(cl.connect(host, srv.port, std::string_view(u), p)); }
                     else ret = "ret:replies:" + render_replies(cl.connect(host, srv.port));
                 }
